@@ -76,6 +76,13 @@ def sizes_of(n, pairs):
 
 def heights_for(pattern, n, pairs, rng):
     m = n - 1
+    if pattern.startswith('neg_'):
+        # heights at or below zero, as the library's own Louvain hierarchies produce (height = -depth): the same shape
+        # shifted so that the root sits at 0 ('neg_') or strictly below 0 ('neg_b_')
+        below = pattern.startswith('neg_b_')
+        hs = heights_for(pattern[6:] if below else pattern[4:], n, pairs, rng)
+        top = max(hs) + (Fraction(1, 2) if below else 0)
+        return [h - top for h in hs]
     if pattern == 'inc':
         return [Fraction(t + 1) for t in range(m)]
     if pattern == 'tied':
@@ -412,7 +419,7 @@ def run(ctx, scratch):
 
     # ---- exhaustive: all merge orders on n <= 5 leaves
     for n in (2, 3, 4):
-        pats = ['inc', 'tied', 'size', 'depth', 'dyadic'] + ['steps%d' % m for m in range(1, 2 ** (n - 2) - 1)]
+        pats = ['inc', 'tied', 'size', 'depth', 'dyadic', 'neg_depth', 'neg_b_inc'] + ['steps%d' % m for m in range(1, 2 ** (n - 2) - 1)]
         for pairs in merge_orders(n):
             orients = list(itertools.product((0, 1), repeat=n - 1)) if (n <= 3 or not quick) else [None]
             for o in orients:
@@ -423,7 +430,7 @@ def run(ctx, scratch):
                         pp = [(b, a) if f else (a, b) for (a, b), f in zip(pairs, o)]
                         rows = make_dendrogram(n, pp, p, rng, orient='keep')
                     dends.append(('exh%d_%s' % (n, p if not p.startswith('steps') else 'steps'), n, rows, True))
-    pats5 = ['inc', 'tied', 'size', 'depth', 'dyadic'] + ['steps%d' % m for m in range(1, 7)]
+    pats5 = ['inc', 'tied', 'size', 'depth', 'dyadic', 'neg_depth', 'neg_b_size'] + ['steps%d' % m for m in range(1, 7)]
     for pairs in merge_orders(5):
         chosen = [rng.choice(pats5[:2]), rng.choice(pats5[2:])] if quick else pats5
         for p in chosen:
@@ -431,7 +438,7 @@ def run(ctx, scratch):
             dends.append(('exh5_%s' % (p if not p.startswith('steps') else 'steps'), 5, rows, True))
     # ---- n = 6: sampled (quick) / every merge order with one height pattern (thorough)
     orders6 = list(merge_orders(6))
-    pats6 = ['inc', 'tied', 'size', 'depth', 'dyadic', 'randsteps']
+    pats6 = ['inc', 'tied', 'size', 'depth', 'dyadic', 'randsteps', 'neg_depth', 'neg_b_randsteps']
     for pairs in (rng.sample(orders6, 60) if quick else orders6):
         p = rng.choice(pats6)
         dends.append(('exh6_%s' % p, 6, make_dendrogram(6, pairs, p, rng), quick))
@@ -439,7 +446,7 @@ def run(ctx, scratch):
     for _ in range(60 if quick else 600):
         n = rng.randint(7, 40 if not quick or rng.random() < 0.3 else 16)
         pairs = random_order(rng, n)
-        p = rng.choice(['inc', 'tied', 'size', 'depth', 'dyadic', 'randsteps', 'randsteps'])
+        p = rng.choice(['inc', 'tied', 'size', 'depth', 'dyadic', 'randsteps', 'randsteps', 'neg_depth', 'neg_b_randsteps'])
         dends.append(('rnd_%s' % p, n, make_dendrogram(n, pairs, p, rng), False))
     # ---- outside the quantifier (a child merge above its parent): correspondence only for the claims on heights
     for _ in range(20 if quick else 200):
